@@ -40,7 +40,7 @@ type c03Case struct {
 
 func c03Sizes(tier string) (units, per, docs int) {
 	if tier == "thorough" {
-		return 3000, 20, 80
+		return 24000, 20, 80
 	}
 	return 400, 20, 60
 }
